@@ -51,7 +51,7 @@ def universe(rnd, n):
     out = []
     for _ in range(n):
         cfg = {"skip": rnd.choice([0, 0, 1, 2]), "cnt": rnd.choice([0, 0, 1, 3]), "sel": rnd.choice(list(SEL)), "fields": rnd.choice(fields), "excl": rnd.choice(excls),
-               "override": rnd.choice(["no", "no", "no", "set", "empty"]), "mts": rnd.random() < 0.4, "split": rnd.choice([0, 0, 2])}
+               "override": rnd.choice(["no", "no", "no", "set", "empty"]), "mts": rnd.random() < 0.4, "split": rnd.choice([0, 0, 2, 1]), "sl": rnd.choice([0, 0, 1])}
         out.append((rnd.choice(lays), cfg))
     return out
 
@@ -194,13 +194,16 @@ def run_rdump(files, lay, cfg, mode, compiled, tmp):
         argv += ["-w", out]
         if cfg["split"]:
             argv += ["--split", str(cfg["split"])]
+            if cfg.get("sl"):
+                argv += ["--suffix-length", str(cfg["sl"])]     # fewer digits than the number of parts needs: the names must still be distinct
         try:
             rdump.main(argv)
         except BaseException as e:  # noqa
             if isinstance(e, KeyboardInterrupt):
                 raise
             case["raised"], case["exc"] = True, type(e).__name__ + ":" + str(e)[:80]
-        fs = sorted(glob.glob(os.path.join(tmp, "out*")))
+        # parts in the NUMERIC order of their suffix (a suffix may outgrow its configured length)
+        fs = sorted(glob.glob(os.path.join(tmp, "out*")), key=lambda f: [int(x) for x in re.findall(r"\d+", os.path.basename(f))] + [os.path.basename(f)])
         for f in fs:
             try:
                 recs = parse_stream_file(f) if os.path.getsize(f) else []
@@ -279,9 +282,9 @@ def run(tier):
     files = Files(tmp, A, B, A2)
     uni = universe(ctx.rnd, 700 if not thorough else 12000)
     # always include the plain identity run and the documented corner cases
-    plain = {"skip": 0, "cnt": 0, "sel": "none", "fields": [], "excl": [], "override": "no", "mts": False, "split": 0}
+    plain = {"skip": 0, "cnt": 0, "sel": "none", "fields": [], "excl": [], "override": "no", "mts": False, "split": 0, "sl": 0}
     lay_good = [src_choices(1)[0], src_choices(2)[0], src_choices(3)[0]]
-    uni = [(lay_good, plain), (lay_good, dict(plain, mts=True)), (lay_good, dict(plain, sel="other_ge_x")), ([src_choices(1)[1], src_choices(2)[2], src_choices(3)[0]], plain)] + uni
+    uni = [(lay_good, plain), (lay_good, dict(plain, mts=True)), (lay_good, dict(plain, sel="other_ge_x")), (lay_good, dict(plain, mts=True, split=1, sl=1)), (lay_good, dict(plain, split=1, sl=1)), ([src_choices(1)[1], src_choices(2)[2], src_choices(3)[0]], plain)] + uni
     cases = []
     for k, (lay, cfg) in enumerate(uni):
         modes = [("stream", True), ("stream", False)]
